@@ -3,6 +3,7 @@
 //	vsim check <ID> [--tier quick|thorough] [--seed N] [--workers N] [--checks N]
 //	vsim replay <replay.json>
 //	vsim selftest [ID...]            determinism self-test
+//	vsim mutants [--seeded] [--benign] [--checks N] [ID...]   sensitivity (mutants, archived seeded changes) / silence (archived property-preserving changes)
 //	vsim list
 //
 // Exit codes: 0 property held on everything explored; 1 violation (a line
@@ -1008,6 +1009,8 @@ func cmdMutants(args []string) int {
 	fs := flag.NewFlagSet("mutants", flag.ExitOnError)
 	checks := fs.Int("checks", 0, "rapid checks per worker (0 = the quick budget)")
 	withTests := fs.Bool("with-tests", false, "also run tink's own tests of the touched packages on the mutant")
+	benign := fs.Bool("benign", false, "instead of mutants, run the property-PRESERVING changes archived under seeded/benign/<ID>[wN]-b<i>/ and seeded/benign/X-b<i>/ (cross-cutting, run for every ID): each must leave the check silent")
+	seeded := fs.Bool("seeded", false, "also run the seeded changes archived under seeded/<ID>[wN]-m<i>/ whose recorded outcome is 'caught' by this property's check")
 	_ = fs.Parse(args)
 	ids := fs.Args()
 	if len(ids) == 0 {
@@ -1032,8 +1035,38 @@ func cmdMutants(args []string) int {
 	for _, id := range ids {
 		patches, _ := filepath.Glob(filepath.Join(verifDir, "mutants", id, "*.patch"))
 		sort.Strings(patches)
+		if *benign {
+			patches = nil
+			for _, pat := range []string{id + "*-b*", "X*-b*"} {
+				dirs, _ := filepath.Glob(filepath.Join(verifDir, "seeded", "benign", pat))
+				sort.Strings(dirs)
+				for _, d := range dirs {
+					patches = append(patches, filepath.Join(d, "patch.diff"))
+				}
+			}
+		}
+		if *seeded && !*benign {
+			dirs, _ := filepath.Glob(filepath.Join(verifDir, "seeded", id+"*-m*"))
+			sort.Strings(dirs)
+			for _, d := range dirs {
+				var meta struct {
+					Lead struct {
+						Outcome string `json:"check_outcome"`
+					} `json:"confirmed_by_lead"`
+				}
+				if data, err := os.ReadFile(filepath.Join(d, "meta.json")); err == nil && json.Unmarshal(data, &meta) == nil && meta.Lead.Outcome == "caught" {
+					patches = append(patches, filepath.Join(d, "patch.diff"))
+				}
+			}
+		}
 		for _, patch := range patches {
 			name := strings.TrimSuffix(filepath.Base(patch), ".patch")
+			if filepath.Base(patch) == "patch.diff" {
+				name = "seeded/" + filepath.Base(filepath.Dir(patch))
+				if *benign {
+					name = "benign/" + filepath.Base(filepath.Dir(patch))
+				}
+			}
 			exec.Command("git", "-C", wt, "checkout", "--", ".").Run()
 			if out, err := exec.Command("git", "-C", wt, "apply", patch).CombinedOutput(); err != nil {
 				fmt.Printf("%s %-50s PATCH-DOES-NOT-APPLY %s\n", id, name, strings.TrimSpace(string(out)))
@@ -1079,6 +1112,19 @@ func cmdMutants(args []string) int {
 					key = strings.TrimPrefix(l, "violation key=")
 				}
 			}
+			if *benign {
+				switch code {
+				case 0:
+					fmt.Printf("%s %-50s SILENT   %5.1fs\n", id, name, time.Since(start).Seconds())
+				case 1:
+					fmt.Printf("%s %-50s FALSE-ALARM %5.1fs %s\n", id, name, time.Since(start).Seconds(), key)
+					survivors++
+				default:
+					fmt.Printf("%s %-50s INFRA(exit %d) %s\n", id, name, code, tail(string(out), 5))
+					survivors++
+				}
+				continue
+			}
 			switch code {
 			case 1:
 				fmt.Printf("%s %-50s CAUGHT   %5.1fs %s%s\n", id, name, time.Since(start).Seconds(), key, testNote)
@@ -1090,6 +1136,10 @@ func cmdMutants(args []string) int {
 				survivors++
 			}
 		}
+	}
+	if survivors > 0 && *benign {
+		fmt.Printf("%d property-preserving change(s) not silent\n", survivors)
+		return 1
 	}
 	if survivors > 0 {
 		fmt.Printf("%d mutant(s) not caught\n", survivors)
